@@ -1698,14 +1698,6 @@ discriminated fields -/
 section review
 variable {α : Type}
 
-/-- **known deviation (finding `preserve-validates-whole-result`)**: the validators of a constrained
-container judge what the policy loop produced, i.e. under `preserve` the list WITH the offenders.  The
-property's sentence ("the strict result of the input without the offenders, with the offenders put back")
-is violated exactly when the filtered list passes the validators and the put-back list does not
-(`max_length`); decidable. -/
-def KnownDefect.consRejectsPutBack (p : Parser α) (cons : List α → Bool) (xs : List α) : Bool :=
-  cons (xs.filterMap p) && !cons (xs.map fun x => (p x).getD x)
-
 /-- **constrained containers, exclude** (full): also with validators on the container, `exclude` on `v` is
 `throw` on the input without the offenders — the validators see the same list on both sides. -/
 theorem C11_seq_rule_exclude_constrained (W : World α) (k : SeqKind) (p : Parser α) (cons : List α → Bool)
